@@ -1,5 +1,5 @@
 """C11 unique constraints reject exactly the duplicates (CypherWrite.tla Mode C11, harness bin cywrite)."""
-from .cywrite_common import gen, trace_cfg, corrupt_dump, cap
+from .cywrite_common import gen, trace_cfg, corrupt_dump, cap, sim_walks
 
 INV = "C11_NoDuplicate"
 PROPS = "C11_RefusedIffWouldDuplicate C05_ErrorChangesNothing"
@@ -15,8 +15,7 @@ def run(ctx):
     scripts = ctx.tlc_gen("MC_CypherWrite", gen("C11", 3, 1, 4 if q else 6, inv=INV, props=PROPS), "cover", timeout=3000, workers=1)
     scripts = cap(ctx, scripts, 4000 if q else 60000, "cover")
     # long random histories: stale index entries need value changes, removals, deletions and id reuse to line up
-    walks = ctx.tlc_gen("MC_CypherWrite", gen("C11", 3, 1, 12, view=False, emit="", inv=INV + " SimEmit"),
-                        "walks", simulate=(300 if q else 2500, 13), workers=4, timeout=3000)
+    walks = sim_walks(ctx, gen("C11", 3, 1, 12, view=False, emit="", inv=INV, sim=True), "walks", 300 if q else 4000, 14)
     ctx.assume("<= 3 live nodes addressed through a tag property p (label-less MATCH (n {p: tag}), so no index is involved in "
                "addressing); labels {A,B}; constrained key k with values {1,2,absent}; one constraint :A(k), created at any point",
                "a statement touches one node; multi-row statements and constraints are exercised by C05",
